@@ -33,7 +33,7 @@ cd /verif
 for C in "$ID" "$@"; do
   out="$(SKIP_REPO_TESTS=1 ./selftest.sh "$DST/patch.diff" "$C" quick 2>&1)"
   echo "$out" | grep -E "SELFTEST|FAILED sub-check" | cut -c1-500 | tee -a "$LOG"
-  if echo "$out" | grep -q "MISSED"; then
+  if echo "$out" | grep -q "MISSED" && [ "${SKIP_THOROUGH:-0}" != 1 ]; then
     out="$(SKIP_REPO_TESTS=1 ./selftest.sh "$DST/patch.diff" "$C" thorough 2>&1)"
     echo "[thorough] $(echo "$out" | grep -E "SELFTEST|FAILED sub-check" | cut -c1-500)" | tee -a "$LOG"
   fi
